@@ -99,6 +99,10 @@ def systematic():
     yield "float", [("const", 1)], [1.0, 2.0]
     yield "str", [("const", "a")], ["a", "b", "", "A"]
     yield "bool", [("const", True)], [True, False]
+    # None is a constant like any other (a rule without origin: every value is well typed)
+    yield "", [("const", None)], [None, 0, False, "", "None", 1]
+    yield "", [("const", 0)], [0, None, False, 0.0]
+    yield "none", [("const", None)], [None]
     # the declared constant and the value of different but ==-equal types, in both directions
     yield "int", [("const", True)], [1, 0, 2]
     yield "int", [("const", False)], [0, 1]
